@@ -52,6 +52,93 @@ theorem foldl_events (dst : M → Nat) (f : E → Outcome (List D)) (h : D → O
     | err => simp [fetched, he]
     | panic => simp [fetched, he]
 
+theorem headDst_of (dst : M → Nat) (f : Nat → List M) (hf : ∀ j, ∀ x ∈ f j, dst x = j) (j : Nat)
+    (hne : (f j).isEmpty = false) : headDst dst (f j) = some j := by
+  cases hfj : f j with
+  | nil => simp [hfj] at hne
+  | cons x xs =>
+    have := hf j x (by simp [hfj])
+    simp [headDst, this]
+
+theorem filterMap_congr' {α β : Type} {l : List α} {f g : α → Option β} (h : ∀ x ∈ l, f x = g x) :
+    l.filterMap f = l.filterMap g := by
+  induction l with
+  | nil => rfl
+  | cons a l ih =>
+    simp only [List.filterMap_cons, h a (by simp)]
+    rw [ih (fun x hx => h x (by simp [hx]))]
+
+theorem flatten_singletons {α : Type} (l : List α) : (l.map fun m => [m]).flatten = l := by
+  induction l with
+  | nil => rfl
+  | cons a l ih => simp [ih]
+
+theorem filter_filterMap_keys [DecidableEq M] (dst : M → Nat) (f : Nat → List M) (hf : ∀ j, ∀ x ∈ f j, dst x = j)
+    (ks : List Nat) (hn : ks.Nodup) (k : Nat) :
+    ((ks.filterMap fun j => if (f j).isEmpty then none else some (f j)).filter (fun b => headDst dst b = some k))
+      = if k ∈ ks ∧ (f k).isEmpty = false then [f k] else [] := by
+  generalize hF : (fun j => if (f j).isEmpty then none else some (f j)) = F
+  induction ks with
+  | nil => simp
+  | cons j js ih =>
+    have hj : j ∉ js := (List.nodup_cons.1 hn).1
+    have ih' := ih (List.nodup_cons.1 hn).2
+    cases he : (f j).isEmpty with
+    | true =>
+      have hFj : F j = none := by rw [← hF]; simp [he]
+      rw [List.filterMap_cons, hFj, ih']
+      by_cases hk : k = j
+      · subst hk; simp [hj, he]
+      · simp [hk]
+    | false =>
+      have hFj : F j = some (f j) := by rw [← hF]; simp [he]
+      have hh := headDst_of dst f hf j he
+      rw [List.filterMap_cons, hFj, List.filter_cons, hh]
+      by_cases hk : j = k
+      · subst hk
+        simp [ih', hj, he]
+      · have hk' : ¬ k = j := fun e => hk e.symm
+        simp [hk, hk', ih']
+
+theorem batches_spec [DecidableEq M] (dst : M → Nat) (m : DMap M) (good : List M)
+    (hm : ∀ k, k < 256 → m k = good.filter (fun x => dst x = k)) : P06h dst good (batches m) := by
+  have hf : ∀ j, ∀ x ∈ (fun k => good.filter (fun x => dst x = k)) j, dst x = j := by
+    intro j x hx
+    simpa using (List.mem_filter.1 hx).2
+  have hb : batches m = (List.range 256).filterMap
+      (fun j => if ((fun k => good.filter (fun x => dst x = k)) j).isEmpty then none
+        else some ((fun k => good.filter (fun x => dst x = k)) j)) := by
+    unfold batches
+    apply filterMap_congr'
+    intro k hk
+    rw [hm k (List.mem_range.1 hk)]
+  refine ⟨?_, ?_, ?_⟩
+  · intro b hbm
+    rw [hb] at hbm
+    obtain ⟨j, _, hj⟩ := List.mem_filterMap.1 hbm
+    by_cases he : (good.filter (fun x => dst x = j)).isEmpty
+    · simp [he] at hj
+    · simp only [he] at hj
+      intro hnil
+      simp at hj
+      rw [← hj] at hnil
+      simp [hnil] at he
+  · intro b hbm
+    rw [hb] at hbm
+    obtain ⟨j, hjr, hj⟩ := List.mem_filterMap.1 hbm
+    by_cases he : (good.filter (fun x => dst x = j)).isEmpty
+    · simp [he] at hj
+    · simp only [he] at hj
+      simp at hj
+      refine ⟨j, List.mem_range.1 hjr, ?_⟩
+      rw [← hj]
+      exact headDst_of dst _ hf j (by simpa using he)
+  · intro k hk
+    rw [hb, filter_filterMap_keys dst _ hf _ List.nodup_range k]
+    by_cases he : (good.filter (fun x => dst x = k)).isEmpty
+    · simp [he]
+    · simp [he, List.mem_range.2 hk]
+
 end Helpers
 
 section Property
@@ -98,6 +185,48 @@ theorem subRetry_isolated (dst : M → Nat) (blockOf : E → Outcome (List D)) (
 theorem subRetry_abort (dst : M → Nat) (blockOf : E → Outcome (List D)) (abort : E → Bool) (h : D → Outcome M)
     (evs : List E) (hab : evs.any abort = true) : subRetry dst blockOf abort h evs = none := by
   simp [subRetry, hab]
+
+/-- `HandleEvents` of the three deposit handlers, at the message channel: for ALL handler functions and deposit lists no
+    empty batch is ever sent, and every destination receives exactly one batch with the messages of the deposits that
+    succeed on their own, in order (none when there is no such deposit) -/
+theorem handleEvents_isolated (dst : M → Nat) (h : D → Outcome M) (ds : List D) :
+    P06h dst (ds.filterMap (okPart h)) (handleEvents dst h ds) :=
+  batches_spec dst _ _ (processDeposits_isolated dst h ds)
+
+/-- Bitcoin `HandleEvents` -/
+theorem btc_handleEvents_isolated (dst : M → Nat) (txs : List (List (BtcR M))) :
+    P06h dst (txs.filterMap (okPart btcTx)) (batches (btcProcess dst txs)) :=
+  batches_spec dst _ _ (btc_isolated dst txs)
+
+/-- EVM RetryV1 `HandleEvents` at the channel -/
+theorem retryV1_handleEvents_isolated (dst : M → Nat) (fetch : E → Outcome (List D)) (h : D → Outcome M)
+    (ex : M → Outcome Bool) (evs : List E) :
+    P06h dst ((evs.flatMap (fetched fetch)).filterMap (okPart (retryItem h ex))) (batches (retryV1 dst fetch h ex evs)) :=
+  batches_spec dst _ _ (retryV1_isolated dst fetch h ex evs)
+
+/-- Substrate retry `HandleEvents` at the channel -/
+theorem subRetry_handleEvents_isolated (dst : M → Nat) (blockOf : E → Outcome (List D)) (abort : E → Bool)
+    (h : D → Outcome M) (evs : List E) (hno : evs.any abort = false) :
+    ∃ out, subRetry dst blockOf abort h evs = some out ∧
+      P06h dst ((evs.flatMap (fetched blockOf)).filterMap (okPart h)) (batches out) := by
+  obtain ⟨out, ho, hp⟩ := subRetry_isolated dst blockOf abort h evs hno
+  exact ⟨out, ho, batches_spec dst _ _ hp⟩
+
+/-- EVM RetryV2: every decodable retry event is sent as one single-message batch, undecodable ones change nothing -/
+theorem retryV2_isolated {L : Type} (parse : L → Option M) (logs : List L) :
+    (∀ b ∈ retryV2 parse logs, b ≠ []) ∧ (retryV2 parse logs).flatten = logs.filterMap parse := by
+  constructor
+  · intro b hb
+    simp only [retryV2, List.mem_map] at hb
+    obtain ⟨m, _, rfl⟩ := hb
+    simp
+  · simp [retryV2, flatten_singletons]
+
+/-- non-vacuity: two destinations, a failing deposit alone on a third destination: two batches, no empty one -/
+example :
+    let h : Nat → Outcome (Nat × Nat) := fun d => if d = 0 then .err else if d = 1 then .panic else .ok (d % 3, d)
+    handleEvents (·.1) h [5, 0, 7, 1, 8] = [[(1, 7)], [(2, 5), (2, 8)]] := by
+  decide
 
 /-- non-vacuity: good, erroring, panicking, good — both good ones arrive, for their own destinations -/
 example :
